@@ -1,10 +1,12 @@
 (* C10 — Rich-data serialization round-trips under every option and consumer capability.
    This file holds ONLY the statements of the property theorems, each closed by `exact <lemma>`, and
    `Print Assumptions` beneath.  Model: Model/Ser.v (serialization/serializer.go, types/basiccollector.go,
-   serialization/deserializer.go).  Proofs: Proofs/SerProofs.v (simulation serializer state / collector
+   serialization/deserializer.go) and Model/SerAttrs.v (the attribute route: serializer.go:327-353, attributesinfo.go
+   PositionalFromHash, objectvalue.go fillValueSlice).  Proofs: Proofs/SerAttrsProofs.v, Proofs/SerProofs.v (simulation serializer state / collector
    state), Proofs/SerWfProofs.v (stream well-formedness), Proofs/SerDeserProofs.v (deserializer). *)
 From Coq Require Import ZArith NArith Bool List.
-From PcoreV Require Import Model.Base Model.Ser Proofs.SerProofs Proofs.SerWfProofs Proofs.SerDeserProofs.
+From PcoreV Require Import Model.Base Model.Ser Model.SerAttrs Proofs.SerProofs Proofs.SerWfProofs Proofs.SerDeserProofs
+  Proofs.SerAttrsProofs.
 Import ListNotations.
 
 (* ---- the stream is well formed: for EVERY value (no assumption on the identity tags) and every point of
@@ -97,6 +99,57 @@ Theorem C10_deser_image :
 Proof. exact @deser_image. Qed.
 Print Assumptions C10_deser_image.
 
+(* ---- the attribute route: values that travel as an instance of their meta type (parameterized types with an
+   object or alias type among their parameters), the trailing default-valued optional attributes left out.
+   VObjT id ty req l disp (Model/SerAttrs.v) is the value; l = ALL attributes of the meta type with what the
+   instance holds and the flag attribute.Default(value); trim mirrors the loop serializer.go:336-341.  Since
+   VObjT is a term of rvalue, every theorem above applies to it. ---- *)
+
+(* what is left out is a suffix of the attribute list, every attribute in it is default-valued, and none of it
+   lies below RequiredCount *)
+Theorem C10_trim_drops_trailing_defaults_only :
+  forall (payload : Type) (req : nat) (l : list (attr payload)),
+    exists sfx,
+      l = trim req l ++ sfx /\
+      Forall (fun a => a_isdef a = true) sfx /\
+      (length sfx <= length l - req)%nat.
+Proof. exact @trim_prefix. Qed.
+Print Assumptions C10_trim_drops_trailing_defaults_only.
+
+(* ... and nothing more could be left out: the last attribute emitted is required or not default-valued *)
+Theorem C10_trim_maximal :
+  forall (payload : Type) (req : nat) (l k : list (attr payload)) (a : attr payload),
+    trim req l = k ++ [a] -> (req <= length k)%nat -> a_isdef a = false.
+Proof. exact @trim_maximal. Qed.
+Print Assumptions C10_trim_maximal.
+
+(* the constructor from the attribute hash (a missing attribute receives its declared default) rebuilds ALL
+   attribute values from the ones emitted.  isdef_sound a d: a set flag means the value equals the declared
+   default (attribute.go:93-95); both hypotheses are checked on every value of the attribute route by the
+   correspondence run (attrs_check). *)
+Theorem C10_trim_fill :
+  forall (payload : Type) (req : nat) (l : list (attr payload)) (ds : list (decl payload)),
+    Forall2 (fun a d => d_name d = a_name a /\ isdef_sound a d) l ds ->
+    NoDup (map a_name l) ->
+    fill ds (given_of (trim req l)) = Ok (map (fun a => erase (a_val a)) l).
+Proof. exact @trim_fill. Qed.
+Print Assumptions C10_trim_fill.
+
+(* end to end under every option with rich_data and every capability: serialize, collect, deserialize, construct
+   from the attribute hash = all attribute values of the original *)
+Theorem C10_attr_route_roundtrip :
+  forall (payload : Type) (to_s : str -> payload -> str) (of_s : str -> str -> option payload),
+    (forall tn p, of_s tn (to_s tn p) = Some p) ->
+    forall (o : opts) (c : caps) id ty req (l : list (attr payload)) disp (ds : list (decl payload)),
+      rich_data o = true ->
+      wf_rich (VObjT id ty req l disp) -> rt_ok to_s (env_of o c) (VObjT id ty req l disp) = true ->
+      Forall2 (fun a d => d_name d = a_name a /\ isdef_sound a d) l ds ->
+      NoDup (map a_name l) ->
+      bind (roundtrip to_s of_s o c (VObjT id ty req l disp)) (fun p => fill ds (pobj_attrs p))
+        = Ok (map (fun a => erase (a_val a)) l).
+Proof. exact @attr_route_roundtrip. Qed.
+Print Assumptions C10_attr_route_roundtrip.
+
 (* The full statement of the property, without the guard, is false of the (faithful) model: open finding
    user-hash-ptype-key.  {'__ptype' => 'x'} is read back as an object of type x. *)
 Definition C10_statement : Prop :=
@@ -184,3 +237,27 @@ Example C10_ex_cyclic :
   wf_richb (rvalue_eqb str_eqb) (VArr 1 [VArr 1 []]%N) = false /\
   collect (serialize (fun _ (p : str) => p) (mkopts true true 2) (mkcaps true true 0) (VArr 1 [VArr 1 []]%N)) = Fault.
 Proof. split; vm_compute; reflexivity. Qed.
+
+(* ---- the attribute route computes: Hash[Any, My::Rec] = (key_type Any: default, value_type My::Rec, size_type
+   Integer[0]: default) keeps key_type (a default-valued attribute IN FRONT of a non-default one) and value_type,
+   drops size_type; Hash[Any, Any, 1, 2]-like lists keep everything; an all-default list keeps nothing beyond the
+   required ones ---- *)
+Definition ex_any : @rvalue str := VRich 1 [84]%N false [65]%N [65]%N.
+Definition ex_rec : @rvalue str := VRich 2 [84]%N true [82]%N [82]%N.
+Definition ex_sz  : @rvalue str := VRich 3 [84]%N false [73]%N [73]%N.
+Definition ex_attrs : list (attr str) :=
+  [mkattr [107]%N ex_any true; mkattr [118]%N ex_rec false; mkattr [115]%N ex_sz true].
+Definition ex_decls : list (decl str) :=
+  [mkdecl [107]%N (Some (erase ex_any)); mkdecl [118]%N (Some (erase ex_any)); mkdecl [115]%N (Some (erase ex_sz))].
+
+Example C10_ex_trim : map a_name (trim 0 ex_attrs) = [[107]%N; [118]%N]
+                      /\ trim 0 [mkattr [107]%N ex_any true; mkattr [115]%N ex_sz true] = []
+                      /\ length (trim 1 [mkattr [107]%N ex_any true; mkattr [115]%N ex_sz true]) = 1%nat.
+Proof. vm_compute. auto. Qed.
+
+Example C10_ex_attr_route :
+  bind (roundtrip (fun _ p => p) (fun _ s => Some s) (mkopts true true 2) (mkcaps false false 0)
+          (VObjT 9 (VStr [72]%N) 0 ex_attrs [104]%N))
+       (fun p => fill ex_decls (pobj_attrs p))
+  = Ok [erase ex_any; erase ex_rec; erase ex_sz].
+Proof. vm_compute. reflexivity. Qed.
